@@ -307,6 +307,9 @@ structure Ctx where
   fault : Option Fault := none
   deriving Repr, Inhabited
 
+/-- State-only update (keeps terms small: `c` occurs once). -/
+def Ctx.upd (c : Ctx) (f : Fed → Fed) : Ctx := { c with st := f c.st }
+
 def emit (e : Eff) (c : Ctx) : Ctx := { c with effs := c.effs ++ [e] }
 
 def fail (f : Fault) (c : Ctx) : Ctx :=
@@ -343,20 +346,20 @@ def sendLocal (k : LocalKind) (m : String) (c : Ctx) : Ctx :=
 
 def deferMessage (F : Facts) (held : List String) (m : String) (c : Ctx) : Ctx :=
   let c := lock held F.deferMessageLock c
-  if c.st.resumeId = "" then c else { c with st := { c.st with pending := c.st.pending ++ [m] } }
+  if c.st.resumeId = "" then c else (c.upd fun s => { s with pending := s.pending ++ [m] })
 
 /-- `closeConnection(false)`. -/
 def closeConnNoBye (c : Ctx) : Ctx :=
   if !c.st.connOpen then c
-  else emit .connClosed { c with st := { c.st with connOpen := false } }
+  else emit .connClosed (c.upd fun s => { s with connOpen := false })
 
 def scheduleReconnectLocked (c : Ctx) : Ctx :=
-  let c := { c with st := { c.st with reconnecting := true } }
+  let c := (c.upd fun s => { s with reconnecting := true })
   let c := if c.st.hello.isSome then
-      sendLocal .fedEvent "event(~;t=room/federation_interrupted)" { c with st := { c.st with hello := none } }
+      sendLocal .fedEvent "event(~;t=room/federation_interrupted)" (c.upd fun s => { s with hello := none })
     else c
   let c := closeConnNoBye c
-  { c with st := { c.st with timer := true } }
+  (c.upd fun s => { s with timer := true })
 
 /-- `sendMessageLocked` (the caller holds `mu`, which is part of `held`). -/
 def sendMessageLocked (F : Facts) (held : List String) (typ m : String) (c : Ctx) : Ctx :=
@@ -381,7 +384,7 @@ def closeConnBye (F : Facts) (held : List String) (c : Ctx) : Ctx :=
 
 /-- `Close()`. -/
 def close (F : Facts) (held : List String) (c : Ctx) : Ctx :=
-  let c := { c with st := { c.st with closed := true } }
+  let c := (c.upd fun s => { s with closed := true })
   closeConnBye F (F.sendLock :: held) (lock held F.sendLock c)
 
 /-- `closeWithError`: close, then an error (answering the pending join request) to the local session. -/
@@ -390,7 +393,7 @@ def closeWithError (F : Facts) (held : List String) (code droom : String) (c : C
   let id := match c.st.message with
     | some jm => jm.id
     | none => ""
-  let c := { c with st := { c.st with message := none } }
+  let c := (c.upd fun s => { s with message := none })
   sendLocal .error (canon "error" id ["code=" ++ enc code, "droom=" ++ droom]) c
 
 def sendHelloLocked (F : Facts) (held : List String) (c : Ctx) : Ctx :=
@@ -398,7 +401,7 @@ def sendHelloLocked (F : Facts) (held : List String) (c : Ctx) : Ctx :=
   let delivered := c.st.connOpen && !c.st.writeBroken
   let n := if delivered then c.st.helloCount + 1 else c.st.helloCount
   let id := if delivered then "@HID" ++ toString n ++ "@" else "@HID-lost@"
-  let c := { c with st := { c.st with helloCount := n, helloMsgId := id } }
+  let c := (c.upd fun s => { s with helloCount := n, helloMsgId := id })
   let m := if c.st.resumeId ≠ "" then "hello(" ++ id ++ ";resume=" ++ enc c.st.resumeId ++ ")"
            else "hello(" ++ id ++ ";auth)"
   sendMessage F held "hello" m c
@@ -423,7 +426,7 @@ def hasFeature (w : Welcome) (f : String) : Bool := w.features.any (fun x => tri
 
 def processWelcome (F : Facts) (m : ServerMessage) (c : Ctx) : Ctx :=
   match m.welcome with
-  | none => fail (.crash "processWelcome F:msg.Welcome") c
+  | none => fail (.crash "processWelcome:msg.Welcome") c
   | some w =>
     if !hasFeature w F.federationFeature then closeWithError F [] "federation_unsupported" "~" c
     else sendHelloLocked F [F.helloLock] (lock [] F.helloLock c)
@@ -431,7 +434,7 @@ def processWelcome (F : Facts) (m : ServerMessage) (c : Ctx) : Ctx :=
 /-- Sending the queued messages after a successful resume (`helloMu` released, `mu` taken). -/
 def flushPending (F : Facts) (c : Ctx) : Ctx :=
   let msgs := c.st.pending
-  let c := { c with st := { c.st with pending := [] } }
+  let c := (c.upd fun s => { s with pending := [] })
   if msgs.isEmpty then c
   else msgs.foldl (fun c m => sendMessageLocked F [F.sendLock] "message" m c) (lock [] F.sendLock c)
 
@@ -440,26 +443,26 @@ def processHello (F : Facts) (m : ServerMessage) (c : Ctx) : Ctx :=
   let H := [F.helloLock]
   if m.id ≠ c.st.helloMsgId then sendHelloLocked F H c
   else
-    let c := { c with st := { c.st with helloMsgId := "" } }
+    let c := (c.upd fun s => { s with helloMsgId := "" })
     if m.type = "error" then
       match m.error with
-      | none => fail (.crash "processHello F:msg.Error") c
+      | none => fail (.crash "processHello:msg.Error") c
       | some e =>
         if e.code = "no_such_session" then
-          sendHelloLocked F H { c with st := { c.st with resumeId := "", pending := [] } }
+          sendHelloLocked F H (c.upd fun s => { s with resumeId := "", pending := [] })
         else closeWithError F H e.code e.origDroom c
     else if m.type ≠ "hello" then sendHelloLocked F H c
     else
-      let c := { c with st := { c.st with hello := m.hello } }
+      let c := (c.upd fun s => { s with hello := m.hello })
       if c.st.resumeId = "" then
         match m.hello with
-        | none => fail (.crash "processHello F:msg.Hello") c
+        | none => fail (.crash "processHello:msg.Hello") c
         | some h =>
-          let c := { c with st := { c.st with resumeId := h.resumeId } }
+          let c := (c.upd fun s => { s with resumeId := h.resumeId })
           let c := if c.st.reconnecting then
               let c := sendLocal .fedEvent "event(~;t=room/federation_resumed;resumed=0)" c
               -- session.SetFederationClient(c): previously seen joins are forgotten
-              { c with st := { c.st with attached := !c.st.sessionClosed, seenJoined := [] } }
+              (c.upd fun s => { s with attached := !s.sessionClosed, seenJoined := [] })
             else c
           joinRoom F H c
       else
@@ -558,14 +561,14 @@ def forwardEvent (F : Facts) (st : Fed) (id : String) (e : Event) (rsid : String
     else if e.type = "flags" then
       match e.flags with
       | none =>
-        if st.changeRoomId || rsid ≠ "" then .crashAt "processMessage F:msg.Event.Flags"
+        if st.changeRoomId || rsid ≠ "" then .crashAt "processMessage:msg.Event.Flags"
         else ev ["room=~", "sid=~"]
       | some f =>
         let sid := if rsid ≠ "" && f.sessionId = rsid then localSid else f.sessionId
         ev ["room=" ++ enc (roomOf st f.roomId), "sid=" ++ enc sid]
     else if e.type = "message" then
       match e.message with
-      | none => if st.changeRoomId then .crashAt "processMessage F:msg.Event.Message" else ev ["room=~"]
+      | none => if st.changeRoomId then .crashAt "processMessage:msg.Event.Message" else ev ["room=~"]
       | some mm => ev ["room=" ++ enc (roomOf st mm.roomId)]
     else ev []
   else if e.target = "room" then
@@ -584,7 +587,7 @@ def forwardEvent (F : Facts) (st : Fed) (id : String) (e : Event) (rsid : String
         seen := some (st.seenJoined.filter (fun s => !(ids.contains s))) }
     else if e.type = "message" then
       match e.message with
-      | none => if st.changeRoomId then .crashAt "processMessage F:msg.Event.Message" else ev ["room=~"]
+      | none => if st.changeRoomId then .crashAt "processMessage:msg.Event.Message" else ev ["room=~"]
       | some mm => ev ["room=" ++ enc (roomOf st mm.roomId)]
     else if e.type = "federation_resumed" then ev [if e.resumed then "resumed=1" else "resumed=0"]
     else ev []
@@ -593,9 +596,9 @@ def forwardEvent (F : Facts) (st : Fed) (id : String) (e : Event) (rsid : String
       match o with
       | none => if st.changeRoomId then .crashAt site else ev ["room=~"]
       | some u => ev ["room=" ++ enc (roomOf st u.roomId)]
-    if e.type = "invite" then sub e.invite "processMessage F:msg.Event.Invite"
-    else if e.type = "disinvite" then sub e.disinvite "processMessage F:msg.Event.Disinvite"
-    else if e.type = "update" then sub e.update "processMessage F:msg.Event.Update"
+    if e.type = "invite" then sub e.invite "processMessage:msg.Event.Invite"
+    else if e.type = "disinvite" then sub e.disinvite "processMessage:msg.Event.Disinvite"
+    else if e.type = "update" then sub e.update "processMessage:msg.Event.Update"
     else ev []
   else ev []
 
@@ -605,7 +608,7 @@ def forward (F : Facts) (st : Fed) (m : ServerMessage) : Fwd :=
     | none => ""
   if m.type = "control" then
     match m.control with
-    | none => .crashAt "processMessage F:msg.Control"
+    | none => .crashAt "processMessage:msg.Control"
     | some b =>
       let snd := rewriteParty b.sender localSid rsid
       let rcp := rewriteParty b.recipient localSid rsid
@@ -613,12 +616,12 @@ def forward (F : Facts) (st : Fed) (m : ServerMessage) : Fwd :=
       { out := some (canon "control" m.id ["snd=" ++ optSid snd, "rcp=" ++ optSid rcp, "peer=" ++ peer]) }
   else if m.type = "event" then
     match m.event with
-    | none => .crashAt "processMessage F:msg.Event"
+    | none => .crashAt "processMessage:msg.Event"
     | some e => forwardEvent F st m.id e rsid
   else if m.type = "error" then
     match m.error with
     | none =>
-      if st.changeRoomId then .crashAt "processMessage F:msg.Error"
+      if st.changeRoomId then .crashAt "processMessage:msg.Error"
       else { out := some (canon "error" m.id ["code=~", "droom=~"]) }
     | some e =>
       let droom :=
@@ -635,7 +638,7 @@ def forward (F : Facts) (st : Fed) (m : ServerMessage) : Fwd :=
         (some jm', jm.roomId, remote, decide (jm.roomId ≠ remote))
       | none => (none, st.roomId, st.remoteRoomId, st.changeRoomId)
     match m.room with
-    | none => { Fwd.crashAt "processMessage F:msg.Room" with room := some (roomId, remoteRoomId, change, jm') }
+    | none => { Fwd.crashAt "processMessage:msg.Room" with room := some (roomId, remoteRoomId, change, jm') }
     | some r =>
       let closing := r.roomId = "" && st.closeOnLeave
       let rid := if !closing && change && r.roomId = remoteRoomId then roomId else r.roomId
@@ -643,7 +646,7 @@ def forward (F : Facts) (st : Fed) (m : ServerMessage) : Fwd :=
         room := some (roomId, remoteRoomId, change, jm') }
   else if m.type = "message" then
     match m.message with
-    | none => .crashAt "processMessage F:msg.Message"
+    | none => .crashAt "processMessage:msg.Message"
     | some b =>
       let snd := rewriteParty b.sender localSid rsid
       let rcp := rewriteParty b.recipient localSid rsid
@@ -659,11 +662,11 @@ def forward (F : Facts) (st : Fed) (m : ServerMessage) : Fwd :=
 client is detached and asked to leave the remote room (`Leave(nil)`); it closes itself when the
 remote server confirms.  Runs in another goroutine: nothing is held. -/
 def sessionEnds (F : Facts) (c : Ctx) : Ctx :=
-  let c := { c with st := { c.st with sessionClosed := true } }
+  let c := (c.upd fun s => { s with sessionClosed := true })
   if c.st.attached then
-    let c := { c with st := { c.st with attached := false } }
+    let c := (c.upd fun s => { s with attached := false })
     let c := sendMessageLocked F [F.sendLock] "room" "room(~;%)" c
-    { c with st := { c.st with closeOnLeave := true } }
+    (c.upd fun s => { s with closeOnLeave := true })
   else c
 
 /-- `processMessage`: rewrite, hand to the local session, maybe close. -/
@@ -671,13 +674,13 @@ def processMessage (F : Facts) (m : ServerMessage) (c : Ctx) : Ctx :=
   let f := forward F c.st m
   let c := match f.room with
     | some (roomId, remote, change, jm) =>
-      { c with st := { c.st with roomId := roomId, remoteRoomId := remote, changeRoomId := change, message := jm } }
+      (c.upd fun s => { s with roomId := roomId, remoteRoomId := remote, changeRoomId := change, message := jm })
     | none => c
   match f.crash with
   | some site => fail (.crash site) c
   | none =>
     let c := match f.seen with
-      | some s => { c with st := { c.st with seenJoined := s } }
+      | some sj => (c.upd fun s => { s with seenJoined := sj })
       | none => c
     let c := match f.out with
       | some o => sendLocal .forwarded o c
@@ -693,8 +696,8 @@ unless the client was closed. -/
 def afterRead (F : Facts) (c : Ctx) : Ctx :=
   let c := if !c.st.connOpen && !c.st.closed then scheduleReconnectLocked (lock [] F.sendLock c) else c
   if c.st.timer && !c.st.closed then
-    emit .reconnected { c with st := { c.st with timer := false, connOpen := true, writeBroken := false } }
-  else { c with st := { c.st with timer := false } }
+    emit .reconnected (c.upd fun s => { s with timer := false, connOpen := true, writeBroken := false })
+  else (c.upd fun s => { s with timer := false })
 
 def dispatch (F : Facts) (m : ServerMessage) (c : Ctx) : Ctx :=
   if c.st.hello.isNone then
@@ -761,7 +764,7 @@ def step (F : Facts) (st : Fed) (op : Op) : Ctx :=
       -- LeaveRoomWithMessage: the client is detached and asked to leave (another goroutine: nothing held)
       let c : Ctx := { st := { st with attached := false } }
       let c := sendMessageLocked F [F.sendLock] "room" "room(leave1;%)" c
-      afterRead F { c with st := { c.st with closeOnLeave := true } }
+      afterRead F (c.upd fun s => { s with closeOnLeave := true })
     else c
   | .localMsg =>
     if st.attached && !st.sessionClosed then
